@@ -322,6 +322,8 @@ pub(crate) trait BehApi: Clone + 'static {
   /// subscriber `p` which, at the first item after its initial value, peeks (result stored
   /// for the harness) and subscribes `j` to a clone
   fn sub_nesting(&self, p: Probe, j: Probe) -> Unsub;
+  /// the same, but from inside the very first callback: the replay of the current value at subscription
+  fn sub_nesting_first(&self, p: Probe, j: Probe) -> Unsub;
   fn b_next(&mut self, v: Val);
   fn b_next_by_plus(&mut self, d: Val);
   fn b_peek(&self) -> Val;
@@ -350,6 +352,16 @@ macro_rules! impl_beh_api {
           let _ = me.actual_subscribe(j);
         };
         let u = self.clone().actual_subscribe(SecondObs { probe: p, calls: 0, nested: Some(n) });
+        Box::new(move || u.unsubscribe())
+      }
+      fn sub_nesting_first(&self, p: Probe, j: Probe) -> Unsub {
+        let me = self.clone();
+        let n = move || {
+          let seen = Behavior::<Val, Val>::peek(&me);
+          PEEKED.with(|x| *x.borrow_mut() = Some(seen));
+          let _ = me.actual_subscribe(j);
+        };
+        let u = self.clone().actual_subscribe(SubObs { probe: p, nested: Some(n) });
         Box::new(move || u.unsubscribe())
       }
       fn b_next(&mut self, v: Val) {
@@ -390,7 +402,7 @@ pub(crate) fn c12_history<B: BehApi>(nops: usize) {
   e::note(B::name().to_string());
   'ops: for _ in 0..nops {
     let which = e::choose(clones.len() as u32) as usize;
-    let op = e::choose(9);
+    let op = e::choose(10);
     match op {
       0 | 1 => {
         let v = Val::var();
@@ -437,6 +449,24 @@ pub(crate) fn c12_history<B: BehApi>(nops: usize) {
         active[i] = true;
         want[i].push(Ev::Next(cur.clone()));
         armed = Some((i, j));
+      }
+      9 => {
+        if used + 2 > NS || done {
+          break 'ops;
+        }
+        let (i, j) = (used, used + 1);
+        used += 2;
+        e::note(format!("c{}.subscribe s{} (peeks and subscribes s{} from inside the replay of the current value)", which, i, j));
+        unsubs[i] = Some(clones[which].sub_nesting_first(probes[i], probes[j]));
+        let seen = PEEKED.with(|x| x.borrow_mut().take());
+        match seen {
+          Some(p) => e::check(p.eq_t(&cur), &format!("{}/peek-inside-replay", B::name()), || format!("peek() from inside the replay callback returned {}, the current value is {}", p.show(), cur.show())),
+          None => e::fail(&format!("{}/nested-action-not-run", B::name()), || "the subscriber's replay callback did not run".to_string()),
+        }
+        active[i] = true;
+        active[j] = true;
+        want[i].push(Ev::Next(cur.clone()));
+        want[j].push(Ev::Next(cur.clone()));
       }
       2 => {
         if clones.len() >= 3 {
